@@ -4,6 +4,7 @@ import json
 from ginverif import adapter_dynreg as D
 from ginverif import core
 from ginverif import tlc
+from ginverif.checks import common_dynreg
 
 
 def _cases(res):
@@ -28,47 +29,9 @@ def run(tier):
               'up to 6 statements are written against a fresh real package tree and parsed by gin (error class, configured '
               'objects, behaviour through references, then a second file with a colliding import name and the config_str '
               'round trip); non-trivial = files with at least one applied binding')
-  res = tlc.run('MC_GinDynReg', 'MC_DynReg_quick.cfg' if tier == 'quick' else 'MC_DynReg_thorough.cfg', timeout=3000)
-  rep.add_tlc('MC_DynReg_quick', res, exhaustive=True)
-  if res.violation or res.timed_out:
-    raise tlc.TLCError('design-level violation of %s\n%s' % (res.violation, res.stdout[-3000:]))
-  n = 700 if tier == 'quick' else 8000
-  ex = tlc.run('GinDynReg_Export', 'GinDynReg_Export.cfg', workers=1, simulate=dict(num=n), depth=7, seed=rep.seed + 4, timeout=1500)
-  rep.add_tlc('GinDynReg_Export(simulate)', ex, exhaustive=False)
-  cases = _cases(ex)
-  seen, chosen = set(), []
-  for c in cases:
-    k = core.jdump([c['doc'], c['skip']])
-    if k in seen or not c['doc']:
-      continue
-    seen.add(k)
-    chosen.append(c)
-  chosen.sort(key=lambda c: -len(c['cfg']))
-  budget = 600 if tier == 'quick' else 8000
-  for c in chosen[:budget]:
-    rep.evaluations += 1
-    rep.behaviours_replayed += 1
-    if c['cfg']:
-      rep.nontrivial_case(core.jdump(c['doc']))
-    d = D.check(c)
-    if d:
-      rep.violation(dict(kind='dynreg-divergence', clause=d[0], status=c['status']),
-                    dict(kind='dynreg-case', case=c, clause=d[0], expected=d[1], got=d[2]))
-  if chosen:
-    cc = D.Case()
-    try:
-      rep.sample(dict(kind='file built by TLC, written against a real package tree and parsed by gin', text=cc.text(chosen[0]['doc']),
-                      spec_status=chosen[0]['status'], spec_cfg=chosen[0]['cfg']))
-    finally:
-      cc.close()
+  common_dynreg.run_into(rep, tier, 'C19')
   return rep.finish()
 
 
 def replay(path):
-  with open(path) as fh:
-    r = json.load(fh)['replay']
-  d = D.check(r['case'])
-  print('divergence: %s' % json.dumps(d, default=str)[:1500] if d else 'conforms')
-  if d:
-    print('VIOLATION property=C19 replay=%s' % path)
-  return 1 if d else 0
+  return common_dynreg.replay('C19', path)
